@@ -86,6 +86,16 @@ def cases(tier, seed):
         c = phylo.random_case(rng, t, k, None, None, ncols=int(rng.integers(2, 9)))
         c["big"] = True
         out.append(c)
+    # a few trees of a thousand taxa (where two large clades meet the product of their partials leaves the float range): the value is
+    # still the exact one (log-space pruning as reference; how the library gets there is C03's subject)
+    for i in range(2 if tier == "quick" else 8):
+        n = [1024, 700, 1500, 900][i % 4]
+        t = rt.random_topology(n, rng, "balanced")
+        c = phylo.random_case(rng, t, ["JC69", "HKY"][i % 2], "constant", "unrooted", ncols=2)
+        c["big"] = True
+        c.pop("indices", None)
+        c.pop("rescale", None)
+        out.append(c)
     # very short branches (what zero-length branches of a start tree and optimisers at their lower bound look like): 1e-13 .. 1e-8
     k = 0
     for i, c in enumerate(out):
